@@ -6,7 +6,8 @@ Driver for C13.
 `C13.read old=0|1 g=<attrs> dims=[d1,d2] vars=<var>&<var>… dvs=[v1,v2]`
   attrs = `name~value;name~value` (or `-`), var = `name|d1,d2|k|attrs`, k ∈ n s c,
   values are percent-encoded (no blanks).
-  → `ok closed=1 v1=[elem,…]:R v2=[…]:N`  (R = the field's report is not empty, N = empty) or
+  → `ok closed=1 v1=[elem,…]:R{ncvar|attribute|reason;…} v2=[…]:N`  (the entries of the field's
+    report as a sorted set; N = the report is empty) or
     `raised:<Err> closed=0|1`
 `C13.px s=<value>`     → `_parse_x`:  `[k:v1,v2;k2:v3]`
 `C13.ws s=<value>`     → `_split_string_by_white_space`
@@ -53,6 +54,7 @@ def parseOld (kv : KV) : Option Cfg :=
   | none => some patched
   | some "0" => some patched
   | some "1" => some coded
+  | some "h" => some head
   | _ => none
 
 def parseFile (kv : KV) : Option NcFile := do
@@ -68,10 +70,24 @@ def insertSorted (x : String) : List String → List String
 
 def sortStrings (l : List String) : List String := l.foldr insertSorted []
 
+def blanks (s : String) : String := String.ofList (s.toList.map (fun c => if c == ' ' then '_' else c))
+
+/-- One entry of the report: `ncvar|attribute key|reason` (blanks as `_`, no attribute as `-`). -/
+def showMsg (m : Msg) : String :=
+  blanks m.var ++ "|" ++ (if m.attr.isEmpty then "-" else blanks m.attr) ++ "|" ++ blanks m.reason
+
+def dedup : List String → List String
+  | [] => []
+  | x :: xs => if xs.contains x then dedup xs else x :: dedup xs
+
+/-- The report as a sorted set of entries. -/
+def showReport (ms : List Msg) : String :=
+  if ms.isEmpty then "N" else "R{" ++ String.intercalate ";" (sortStrings (dedup (ms.map showMsg))) ++ "}"
+
 def showField (r : List (String × FieldOut)) (dv : String) : String :=
   match r.lookup dv with
   | none => dv ++ "=absent"
-  | some o => dv ++ "=[" ++ String.intercalate "," (sortStrings o.elems) ++ "]:" ++ (if o.msgs.isEmpty then "N" else "R")
+  | some o => dv ++ "=[" ++ String.intercalate "," (sortStrings o.elems) ++ "]:" ++ showReport o.msgs
 
 def showOutcome (cfg : Cfg) (F : NcFile) (dvs : List String) : String :=
   let o := readFile cfg F
@@ -80,7 +96,8 @@ def showOutcome (cfg : Cfg) (F : NcFile) (dvs : List String) : String :=
   | .error e => s!"raised:{e.name} closed={c}"
   | .ok r => s!"ok closed={c} " ++ String.intercalate " " (dvs.map (showField r))
 
-/-- `old=2` (diagnostics): `<patched = HEAD> || <HEAD before 7931fa5> || <coded>`. -/
+/-- `old=2`: `<HEAD + the proposed patches> || <HEAD>`; `old=3` (diagnostics) adds
+`|| <HEAD before 7931fa5> || <the code before any C13 repair>`. -/
 def runRead (kv : KV) : String :=
   match (do
     let F ← parseFile kv
@@ -89,7 +106,9 @@ def runRead (kv : KV) : String :=
   | none => "bad-op"
   | some (F, dvs) =>
     match kv.get? "old" with
-    | some "2" => showOutcome patched F dvs ++ " || " ++ showOutcome leakyVcrs F dvs ++ " || " ++ showOutcome coded F dvs
+    | some "2" => showOutcome patched F dvs ++ " || " ++ showOutcome head F dvs
+    | some "3" => showOutcome patched F dvs ++ " || " ++ showOutcome head F dvs ++ " || " ++
+        showOutcome leakyVcrs F dvs ++ " || " ++ showOutcome coded F dvs
     | _ => match parseOld kv with
       | none => "bad-op"
       | some cfg => showOutcome cfg F dvs
